@@ -1,13 +1,14 @@
 //! C10 — one total order: make_comparator, sort / sort_to_indices / sort_limit / lexsort(_to_indices),
 //! LexicographicalComparator, rank, partition and the comparison kernels agree with one model order.
 use crate::model::*;
+use crate::report::Rp;
 use crate::space::*;
 use arrow_array::{Array, ArrayRef, BooleanArray, Scalar, UInt32Array};
 use arrow_ord::cmp as k;
 use arrow_ord::ord::make_comparator;
 use arrow_ord::partition::partition;
 use arrow_ord::rank::rank;
-use arrow_ord::sort::{LexicographicalComparator, SortColumn, lexsort, lexsort_to_indices, sort, sort_limit, sort_to_indices};
+use arrow_ord::sort::{LexicographicalComparator, SortColumn, lexsort, lexsort_to_indices, partial_sort, partition_validity, sort, sort_limit, sort_to_indices};
 use std::cmp::Ordering;
 use vcore::serde_json::{self, Value, json};
 use vcore::{Ctx, Level, Stats, catch, par_for};
@@ -52,40 +53,6 @@ fn kernel_leaf(ty: &Ty) -> &Ty {
 
 // -------------------------------------------------------------------------------------------------
 // reporting helper
-
-struct Rp<'a> {
-    st: &'a mut Stats,
-    order: u64,
-    kind: &'static str,
-    case: &'a dyn Fn() -> Value,
-    verbose: bool,
-}
-impl Rp<'_> {
-    fn fail(&mut self, api: &str, check: &str, msg: String) {
-        let fp = format!("c10:{api}:{check}:{}", self.kind);
-        if self.verbose {
-            println!("  MISMATCH [{fp}] {msg}");
-        }
-        let case = self.case;
-        self.st.violate(self.order, fp, msg, case);
-    }
-    fn wf(&mut self, api: &str, msg: String) {
-        let fp = format!("wf:c10:{api}:{}", self.kind);
-        if self.verbose {
-            println!("  MISMATCH [{fp}] {msg}");
-        }
-        let case = self.case;
-        self.st.violate(self.order, fp, msg, case);
-    }
-    fn panic(&mut self, api: &str, p: &vcore::PanicInfo, ctx: String) {
-        let fp = format!("c10:{api}:{}:{}", p.fingerprint(), self.kind);
-        if self.verbose {
-            println!("  PANIC [{fp}] {ctx}");
-        }
-        let case = self.case;
-        self.st.violate(self.order, fp, format!("{api} panicked: {} at {}:{} ({ctx})", p.msg, p.file, p.line), case);
-    }
-}
 
 fn ord_name(o: Ordering) -> &'static str {
     match o {
@@ -246,11 +213,7 @@ fn check_sorted_array(api: &str, out: &ArrayRef, ty: &Ty, exp_vals: &[&Val], rp:
         // one class for every API that materialises the sorted rows with `take`
         let fp = format!("c10:sorted-take:len:{}", rp.kind);
         let msg = format!("{api} {label}: result has {} rows, expected {} (the index form of the same sort is checked separately)", got.len(), exp_vals.len());
-        if rp.verbose {
-            println!("  MISMATCH [{fp}] {msg}");
-        }
-        let case = rp.case;
-        rp.st.violate(rp.order, fp, msg, case);
+        rp.raw(fp, msg);
         return;
     }
     if got.iter().zip(exp_vals.iter()).any(|(g, e)| g != *e) {
@@ -292,6 +255,20 @@ fn unary_checks(ty: &Ty, vals: &[Val], lay: Lay, all_limits: bool, do_eq: bool, 
     let has_dict_alt = lay.alt && type_has_dict(ty);
     if do_eq && !has_dict_alt && !type_has_union(ty) {
         evals += check_eq_consistency(&arr, vals, rp, &label);
+    }
+    // partition_validity: (indices of physically valid slots, indices of physically null slots), ascending
+    {
+        evals += 1;
+        match catch(|| partition_validity(arr.as_ref())) {
+            Err(p) => rp.panic("partition_validity", &p, label.clone()),
+            Ok((v, nl)) => {
+                let want_v: Vec<u32> = (0..n).filter(|i| !arr.is_null(*i)).map(|i| i as u32).collect();
+                let want_n: Vec<u32> = (0..n).filter(|i| arr.is_null(*i)).map(|i| i as u32).collect();
+                if v != want_v || nl != want_n {
+                    rp.fail("partition_validity", "indices", format!("{label}: got valid {v:?} null {nl:?}, expected {want_v:?} / {want_n:?}"));
+                }
+            }
+        }
     }
     let sortable = can_sort(ty);
     let rankable = can_rank(ty);
@@ -573,11 +550,7 @@ fn check_kernels(l: &ArrayRef, l_scalar: bool, r: &ArrayRef, r_scalar: bool, lv:
             Some(c) => c.to_string(),
             None => format!("c10:cmp-kernels:{group}:{symptom}:{}", rp.kind),
         };
-        if rp.verbose {
-            println!("  MISMATCH [{fp}] {msg}");
-        }
-        let case = rp.case;
-        rp.st.violate(rp.order, fp, msg, case);
+        rp.raw(fp, msg);
     };
     for op in 0..8 {
         evals += 1;
@@ -681,7 +654,7 @@ fn run_unary_case(ty: &Ty, col: &[u8], lays: &[Lay], all_limits: bool, st: &mut 
     let mut evals = 0;
     for (li, lay) in lays.iter().enumerate() {
         let case = || json!({"sub": "unary", "type": ty.name(), "col": col, "layout": lay_json(*lay), "values": show_col(&vals)});
-        let mut rp = Rp { st, order, kind: kind_of(ty), case: &case, verbose };
+        let mut rp = Rp { st, order, prop: "c10", kind: kind_of(ty), case: &case, verbose };
         evals += unary_checks(ty, &vals, *lay, all_limits || li < 2, li == 0 || li == 3, &mut rp);
     }
     evals
@@ -725,7 +698,7 @@ fn run_pair_case(lt: &Ty, rt: &Ty, lcol: &[u8], rcol: &[u8], lay_pairs: &[(Lay, 
     let supported = can_kernel(lt) && can_kernel(rt);
     for (ll, rl) in lay_pairs {
         let case = || json!({"sub": "pair", "ltype": lt.name(), "rtype": rt.name(), "lcol": lcol, "rcol": rcol, "llayout": lay_json(*ll), "rlayout": lay_json(*rl), "lvalues": show_col(&lv), "rvalues": show_col(&rv)});
-        let mut rp = Rp { st, order, kind: kind_of(lt), case: &case, verbose };
+        let mut rp = Rp { st, order, prop: "c10", kind: kind_of(lt), case: &case, verbose };
         let label = format!("{} {} [{}] vs {} {} [{}]", lt.name(), show_col(&lv), ll.show(), rt.name(), show_col(&rv), rl.show());
         let (l, r) = match catch(|| (realise(lt, &lv, *ll), realise(rt, &rv, *rl))) {
             Ok(x) => x,
@@ -778,7 +751,7 @@ fn run_tuple_case(tys: &[Ty], rows: &[Vec<u8>], lays: &[Lay], opt_sets: &[Vec<Op
     let tname = tys.iter().map(|t| t.name()).collect::<Vec<_>>().join(" | ");
     for lay in lays {
         let case = || json!({"sub": "tuple", "types": tys.iter().map(|t| t.name()).collect::<Vec<_>>(), "rows": rows, "layout": lay_json(*lay), "values": cols_v.iter().map(|c| show_col(c)).collect::<Vec<_>>()});
-        let mut rp = Rp { st, order, kind: "tuple", case: &case, verbose };
+        let mut rp = Rp { st, order, prop: "c10", kind: "tuple", case: &case, verbose };
         let arrs: Vec<ArrayRef> = match catch(|| (0..nc).map(|c| realise(&tys[c], &cols_v[c], *lay)).collect()) {
             Ok(a) => a,
             Err(p) => {
@@ -955,7 +928,7 @@ fn run_long_case(tys: &[Ty], len: usize, pats: &[(Pat, NullPat)], lay: Lay, os: 
     let cols_v: Vec<Vec<Val>> = (0..nc).map(|c| long_column(&alphabet_nn(&tys[c]), tys[c].is_nullable_top(), len, pats[c].0, pats[c].1, &streams)).collect();
     let case = || json!({"sub": "long", "types": tys.iter().map(|t| t.name()).collect::<Vec<_>>(), "len": len, "patterns": pats.iter().map(|p| format!("{:?}/{:?}", p.0, p.1)).collect::<Vec<_>>(), "layout": lay_json(lay), "opts": os.iter().map(|o| o.idx()).collect::<Vec<_>>()});
     let kind = if nc == 1 { kind_of(&tys[0]) } else { "tuple" };
-    let mut rp = Rp { st, order, kind, case: &case, verbose };
+    let mut rp = Rp { st, order, prop: "c10", kind, case: &case, verbose };
     let lab = format!("long ({}) len={len} {:?} [{}] {}", tys.iter().map(|t| t.name()).collect::<Vec<_>>().join(" | "), pats, lay.show(), os.iter().map(|o| o.show()).collect::<Vec<_>>().join(","));
     let arrs: Vec<ArrayRef> = match catch(|| (0..nc).map(|c| realise(&tys[c], &cols_v[c], lay)).collect()) {
         Ok(a) => a,
@@ -987,6 +960,22 @@ fn run_long_case(tys: &[Ty], len: usize, pats: &[(Pat, NullPat)], lay: Lay, os: 
     for limit in long_limits(n) {
         let wl = want_len(n, limit);
         let lab = format!("{lab} limit={limit:?}");
+        // the public partial_sort helper with the model order as comparator: the first `limit` entries are
+        // the smallest ones, sorted; the slice stays a permutation
+        if let Some(l) = limit.filter(|l| *l <= n) {
+            evals += 1;
+            let mut v: Vec<usize> = (0..n).collect();
+            match catch(|| partial_sort(&mut v, l, |a, b| cmp(*a, *b))) {
+                Err(p) => rp.panic("partial_sort", &p, lab.clone()),
+                Ok(()) => {
+                    let mut seen = vec![false; n];
+                    let perm = v.len() == n && v.iter().all(|i| *i < n && !std::mem::replace(&mut seen[*i], true));
+                    if !perm || (0..l).any(|q| cmp(v[q], exp[q]) != Ordering::Equal) {
+                        rp.fail("partial_sort", "order", format!("{lab}: first {l} entries are not the model-sorted prefix (or the slice is no longer a permutation)"));
+                    }
+                }
+            }
+        }
         evals += 1;
         match catch(|| lexsort_to_indices(&scols, limit)) {
             Err(p) => rp.panic("lexsort_to_indices", &p, lab.clone()),
@@ -1146,6 +1135,11 @@ fn replay(case: &Value) -> u64 {
     st.viol_counts.values().sum()
 }
 
+/// `--only <sub-engine>` (debugging aid): run one sub-engine; such a run is recorded as capped
+fn only_filter(ctx: &Ctx) -> Option<String> {
+    ctx.extra_args.iter().position(|a| a == "--only").and_then(|i| ctx.extra_args.get(i + 1).cloned())
+}
+
 pub fn run(ctx: &Ctx) -> ! {
     if let Some(case) = vcore::load_replay(ctx) {
         println!("replay case: {case}");
@@ -1156,6 +1150,11 @@ pub fn run(ctx: &Ctx) -> ! {
     let thorough = !ctx.quick();
     let mut st = Stats::new();
     let mut order_base = 0u64;
+    let only = only_filter(ctx);
+    let wants = |s: &str| only.as_deref().is_none_or(|o| o == s);
+    if let Some(o) = &only {
+        st.cap(format!("--only {o}: the other sub-engines were not run"));
+    }
     let mut support = serde_json::Map::new();
 
     // ---------------- unary: every (type, column) x layouts x options x limits
@@ -1171,7 +1170,7 @@ pub fn run(ctx: &Ctx) -> ! {
         total += space.count();
     }
     let n_layouts = UNARY_LAYOUTS.len() as u64;
-    st.merge(par_for(ctx, "unary", total, 16, |idx, st| {
+    st.merge(par_for(ctx, "unary", if wants("unary") { total } else { 0 }, 16, |idx, st| {
         let (job, off) = locate(&jobs, idx);
         let col = job.space.decode(off);
         let vals = col_vals(&job.al, &col);
@@ -1221,7 +1220,7 @@ pub fn run(ctx: &Ctx) -> ! {
         ptotal += c * c;
     }
     let pair_lays: &[(Lay, Lay)] = &PAIR_LAYOUTS;
-    st.merge(par_for(ctx, "pairs", ptotal, 64, |idx, st| {
+    st.merge(par_for(ctx, "pairs", if wants("pairs") { ptotal } else { 0 }, 64, |idx, st| {
         let p = pjobs.partition_point(|j| j.start <= idx) - 1;
         let job = &pjobs[p];
         let off = idx - job.start;
@@ -1299,7 +1298,7 @@ pub fn run(ctx: &Ctx) -> ! {
         ttotal += rows_count(&letters, 4);
     }
     let tuple_lays = [COMPACT, Lay { garbage: true, alt: true, lead: 1, trail: 1 }];
-    st.merge(par_for(ctx, "tuples", ttotal, 8, |idx, st| {
+    st.merge(par_for(ctx, "tuples", if wants("tuples") { ttotal } else { 0 }, 8, |idx, st| {
         let pi = tjobs.partition_point(|j| j.start <= idx) - 1;
         let job = &tjobs[pi];
         let mut off = idx - job.start;
@@ -1389,7 +1388,7 @@ pub fn run(ctx: &Ctx) -> ! {
     };
     // single columns: type x len x (pattern, nullpattern) x layout x 4 options
     let n_ls = (long_single.len() * long_lens.len() * pat_pairs.len() * long_lays.len() * 4) as u64;
-    st.merge(par_for(ctx, "long-single", n_ls, 2, |idx, st| {
+    st.merge(par_for(ctx, "long-single", if wants("long-single") { n_ls } else { 0 }, 2, |idx, st| {
         let mut i = idx as usize;
         let o = ALL_OPTS[i % 4];
         i /= 4;
@@ -1416,7 +1415,7 @@ pub fn run(ctx: &Ctx) -> ! {
     ];
     let opt_rot: Vec<Vec<Opts>> = (0..4).map(|r| (0..6).map(|c| ALL_OPTS[(r + c * (r + 1)) % 4]).collect()).collect();
     let n_lt = (long_tuples.len() * long_lens.len() * tup_pats.len() * long_lays.len() * opt_rot.len()) as u64;
-    st.merge(par_for(ctx, "long-tuples", n_lt, 2, |idx, st| {
+    st.merge(par_for(ctx, "long-tuples", if wants("long-tuples") { n_lt } else { 0 }, 2, |idx, st| {
         let mut i = idx as usize;
         let os = &opt_rot[i % opt_rot.len()];
         i /= opt_rot.len();
